@@ -414,6 +414,22 @@ package core
 //@     invariant[merge.search@C07] forall j int :: (0 <= j && j <= rangeindex#1) ==> msg.Frags[slot][j] != k
 //@     invariant[merge.held@C07] mergedu(msg, rangeindex#0 + 1) && holds(msg.RspBody, merged(msg, rangeindex#0))
 
+// Backend connection initialisation (C04, C03): the replies to the AUTH / READONLY commands sent when the connection was
+// opened are swallowed: exactly initStep times "+OK\r\n" are dropped from the front of the stream, once, and nothing else;
+// until they have arrived in full nothing is consumed. (The table of expected prefixes is a package-level map literal; its
+// contents are assumed as written in codec_s.go.)
+//@ define okmap() = has(ShortcutOK, 1) && has(ShortcutOK, 2) && ShortcutOK[1] == "+OK\r\n" && ShortcutOK[2] == "+OK\r\n+OK\r\n" && (forall k int8 :: has(ShortcutOK, k) ==> (k == 1 || k == 2))
+//@ func SRespCodec.InitializingDecode
+//@   props C03 C04
+//@   modifies codec.buffer.r, codec.buffer.buf, conn.buffer, ring.Buffer.r, ring.Buffer.w, ring.Buffer.isEmpty, elastic.RingBuffer.rb, sc(s).initStatus, bytes.Buffer.glen, bytes.Buffer.gdata
+//@   requires s != nil && swf(sc(s)) && okmap() && sc(s).initStatus == Initializing
+//@   ensures[wf] swf(sc(s))
+//@   ensures[errs] result != codec.MovedOrAsk && result != codec.Continue
+//@   ensures[swallow@C03,C04] sc(s).initStatus != old(sc(s).initStatus) ==> (result == nil && sc(s).initStatus == Initialized && 1 <= sc(s).initStep && sc(s).initStep <= 2
+//@       && slen(sc(s)) == old(slen(sc(s))) - 5 * sc(s).initStep && (forall k int :: (0 <= k && k < slen(sc(s))) ==> sat(sc(s), k) == old(sat(sc(s), k + 5 * sc(s).initStep))))
+//@   ensures[swallow.ok@C04] sc(s).initStatus != old(sc(s).initStatus) ==> (forall k int :: (0 <= k && k < 5 * sc(s).initStep) ==> old(sat(sc(s), k)) == "+OK\r\n+OK\r\n"[k])
+//@   ensures[kept@C03,C04] sc(s).initStatus == old(sc(s).initStatus) ==> (slen(sc(s)) == old(slen(sc(s))) && (forall k int :: (0 <= k && k < slen(sc(s))) ==> sat(sc(s), k) == old(sat(sc(s), k))))
+
 //@ define inq(s) = sc(s).inFragQueue
 
 //@ func SRespCodec.Decode
@@ -451,6 +467,7 @@ package core
 //@   requires c.inFragQueue != nil && fwf(c.inFragQueue) && EngineGlobal != nil && swf(c)
 //@   requires (hd(c) != nil && hd(c).Peer != nil) ==> (forall k int32 :: has(hd(c).Peer.Body, k) ==> hd(c).Peer.Body[k] != nil)
 //@   requires (hd(c) != nil && hd(c).Peer != nil) ==> (hd(c).Peer.RspBody == nil || hd(c).RspBody == nil || hd(c).RspBody.base != hd(c).Peer.RspBody.base)
+//@   assume at call SRespCodec.InitializingDecode#0 :: okmap()
 //@   assume at call SRespCodec.MGet#0 :: arrhdr(f.RspBody) && value_end(f.RspBody, 0) == len(f.RspBody) && value_ok(f.RspBody, 0) && allbulk(f.RspBody)
 //@       && (f.Peer.FragDoneNumber >= len(f.Peer.Body) ==> (forall s int32 :: (has(f.Peer.Frags, s) && f.Peer.Body[s] != f) ==> len(f.Peer.Body[s].Rsp) == len(f.Peer.Frags[s])))
 //@       && (forall s int32 :: has(f.Peer.Frags, s) ==> (has(f.Peer.Body, s) && f.Peer.Body[s] != nil))
